@@ -381,4 +381,208 @@ example : ((FreeList.model.run (FreeList.init (fun _ => 0)) readdSched).map
     (fun r => (r.1.head, r.1.refs 1, r.1.shouldBeOn 1, [r.1.owns 0 1, r.1.owns 1 1, r.1.owns 2 1, r.1.owns 3 1]))) =
     some (none, 0, false, [false, false, false, true]) := by decide +kernel
 
+/-! ## A `get` racing with a `put`, and the quiescent-completeness theorems on these runs
+
+  The hypotheses of `C21_tagged_quiescent_complete` / `C21_freelist_quiescent_complete` (a reachable state in which EVERY
+  thread is idle) are discharged for concrete two-thread runs: threads that are not scheduled stay idle. -/
+
+/-- A thread that is not scheduled does not move (any machine whose actions only change the program counter of the
+    acting thread). -/
+theorem run_pc_other {σ P : Type} (m : Model σ) (pc : σ → Tid → P)
+    (hstep : ∀ s t a s' o, m.apply s t a = some (s', o) → ∀ t', t' ≠ t → pc s' t' = pc s t') :
+    ∀ (sched : List (Tid × Act)) (s s' : σ) os, m.run s sched = some (s', os) →
+      ∀ t', (∀ x ∈ sched, x.1 ≠ t') → pc s' t' = pc s t' := by
+  intro sched
+  induction sched with
+  | nil => intro s s' os hr t' _; simp [Model.run] at hr; rw [hr.1]
+  | cons x rest ih =>
+    intro s s' os hr t' hall
+    obtain ⟨t, a⟩ := x
+    simp only [Model.run] at hr
+    cases hap : m.apply s t a with
+    | none => simp [hap] at hr
+    | some p =>
+      obtain ⟨s1, o⟩ := p
+      simp only [hap] at hr
+      cases hrr : m.run s1 rest with
+      | none => simp [hrr] at hr
+      | some q =>
+        obtain ⟨s2, os2⟩ := q
+        simp only [hrr, Option.some.injEq, Prod.mk.injEq] at hr
+        obtain ⟨rfl, -⟩ := hr
+        rw [ih s1 s2 os2 hrr t' (fun y hy => hall y (List.mem_cons_of_mem _ hy))]
+        exact hstep s t a s1 o hap t' (fun e => hall (t, a) List.mem_cons_self e.symm)
+
+theorem tagged_pc_other (s : TaggedFreeList.St) (t : Tid) (a : Act) (s' : TaggedFreeList.St) (o : Obs)
+    (h : TaggedFreeList.model.apply s t a = some (s', o)) (t' : Tid) (hne : t' ≠ t) : s'.pc t' = s.pc t' := by
+  cases a with
+  | invoke op =>
+    simp only [Model.apply, TaggedFreeList.model, TaggedFreeList.invoke] at h
+    split at h
+    · split at h
+      · simp at h; rw [← h.1]; simp [upd, hne]
+      · simp at h
+    · simp at h; rw [← h.1]; simp [upd, hne]
+    · simp at h
+  | step =>
+    simp only [Model.apply, TaggedFreeList.model, TaggedFreeList.step] at h
+    split at h <;> (try split at h) <;> simp at h <;> (rw [← h.1]; simp [upd, hne])
+  | ret =>
+    simp only [Model.apply, TaggedFreeList.model, TaggedFreeList.result] at h
+    split at h
+    · simp at h; rw [← h.1]; simp [upd, hne]
+    · simp at h
+
+theorem freelist_pc_other (s : FreeList.St) (t : Tid) (a : Act) (s' : FreeList.St) (o : Obs)
+    (h : FreeList.model.apply s t a = some (s', o)) (t' : Tid) (hne : t' ≠ t) : s'.pc t' = s.pc t' := by
+  cases a with
+  | invoke op =>
+    simp only [Model.apply, FreeList.model, FreeList.invoke] at h
+    split at h
+    · split at h
+      · simp at h; rw [← h.1]; simp [upd, hne]
+      · simp at h
+    · simp at h; rw [← h.1]; simp [upd, hne]
+    · simp at h
+  | step =>
+    simp only [Model.apply, FreeList.model, FreeList.step] at h
+    split at h <;> (try split at h) <;> simp at h <;> (rw [← h.1]; simp [upd, hne])
+  | ret =>
+    simp only [Model.apply, FreeList.model, FreeList.result] at h
+    split at h
+    · simp at h; rw [← h.1]; simp [upd, hne]
+    · simp at h
+
+/-- TaggedFreeList.  Thread 0 owns all nodes and puts n1 (list: n1, head = n1#1).  Then thread 1 calls `get` and thread 0
+    calls `put( n2 )`, interleaved: both load head = n1#1; thread 0 links n2 (`cas+ head n1#1 n2#2`) and returns; thread
+    1's CAS, expecting n1#1, FAILS; it goes round the loop with the value seen (n2#2), reads n2.next = n1 and takes n2 —
+    the node that was put while its `get` was running. -/
+def taggedRaceSched : List (Tid × Act) :=
+  [(0, .invoke ⟨"put", [0, 1]⟩), (0, .step), (0, .step), (0, .step), (0, .ret),
+   (1, .invoke ⟨"get", [1]⟩), (0, .invoke ⟨"put", [0, 2]⟩),
+   (1, .step), (0, .step), (1, .step), (0, .step), (0, .step), (0, .ret),
+   (1, .step), (1, .step), (1, .step), (1, .ret)]
+
+example : ((TaggedFreeList.model.run (TaggedFreeList.init (fun _ => 0)) taggedRaceSched).map (fun r => r.2.drop 5)) = some
+    [(1, .call ⟨"get", [1]⟩),
+     (0, .call ⟨"put", [0, 2]⟩),
+     (1, .ev ⟨"ld", "head", "n1#1", ""⟩),
+     (0, .ev ⟨"ld", "head", "n1#1", ""⟩),
+     (1, .ev ⟨"ld", "n1", "null", ""⟩),
+     (0, .ev ⟨"st", "n2", "n1", ""⟩),
+     (0, .ev ⟨"cas+", "head", "n1#1", "n2#2"⟩),      -- the put wins the race
+     (0, .ret [1]),
+     (1, .ev ⟨"cas-", "head", "n2#2", "n1#1"⟩),      -- the get's CAS fails
+     (1, .ev ⟨"ld", "n2", "n1", ""⟩),
+     (1, .ev ⟨"cas+", "head", "n2#2", "n1#3"⟩),
+     (1, .ret [1, 2])] := by decide +kernel
+
+set_option synthInstance.maxSize 4000 in
+/-- At the end: both threads idle, the list is n1 alone, n2 is owned by thread 1 only. -/
+example : ((TaggedFreeList.model.run (TaggedFreeList.init (fun _ => 0)) taggedRaceSched).map
+    (fun r => (r.1.pc 0, r.1.pc 1, r.1.head, TaggedFreeList.walk r.1.next 8 r.1.head.1,
+      [r.1.owns 0 1, r.1.owns 1 1], [r.1.owns 0 2, r.1.owns 1 2]))) =
+    some (.idle, .idle, (some 1, 3), [1], [false, false], [false, true]) := by decide +kernel
+
+/-- `C21_tagged_quiescent_complete` applied to that run: the run exists, EVERY thread is idle at its end, hence the
+    conclusion of the theorem holds of its final state — no hypothesis is left. -/
+example : ∃ s os, TaggedFreeList.model.run (TaggedFreeList.init (fun _ => 0)) taggedRaceSched = some (s, os) ∧
+    (∀ t, s.pc t = .idle) ∧
+    ∃ l, TaggedFreeList.Chain s.next s.head.1 l ∧ l.Nodup ∧ (∀ n, n ∈ l ↔ ∀ t, s.owns t n = false) ∧
+      ∀ t, ∃ s' os', TaggedFreeList.model.run s (TaggedFreeList.drainSched t l.length) = some (s', os') ∧
+        TaggedFreeList.retsOf os' = l.map (fun (a : Nat) => ([1, (a : Int)] : GRet)) ++ [[0]] ∧
+        (∀ a ∈ l, s'.owns t a = true) := by
+  have h : (TaggedFreeList.model.run (TaggedFreeList.init (fun _ => 0)) taggedRaceSched).isSome = true := by
+    decide +kernel
+  obtain ⟨⟨s, os⟩, hr⟩ := Option.isSome_iff_exists.mp h
+  have h01 : (TaggedFreeList.model.run (TaggedFreeList.init (fun _ => 0)) taggedRaceSched).map
+      (fun r => decide (r.1.pc 0 = .idle ∧ r.1.pc 1 = .idle)) = some true := by decide +kernel
+  rw [hr] at h01
+  simp only [Option.map_some, Option.some.injEq, decide_eq_true_eq] at h01
+  have hsched : ∀ x ∈ taggedRaceSched, x.1 < 2 := by decide +kernel
+  have hq : ∀ t, s.pc t = .idle := by
+    intro t
+    match t with
+    | 0 => exact h01.1
+    | 1 => exact h01.2
+    | t + 2 =>
+      exact run_pc_other TaggedFreeList.model (fun s => s.pc) tagged_pc_other taggedRaceSched _ s os hr (t + 2)
+        (fun x hx e => absurd (e ▸ hsched x hx : t + 2 < 2) (Nat.not_lt.mpr (Nat.le_add_left 2 t)))
+  exact ⟨s, os, hr, hq, C21_tagged_quiescent_complete (fun _ => 0) s ⟨taggedRaceSched, os, hr⟩ hq⟩
+
+/-- The drain of the theorem, evaluated after that run (thread 2 calls `get` twice): n1, then "empty". -/
+example : ((TaggedFreeList.model.run (TaggedFreeList.init (fun _ => 0))
+    (taggedRaceSched ++ TaggedFreeList.drainSched 2 1)).map (fun r => TaggedFreeList.retsOf (r.2.drop 17))) =
+    some [[1, 1], [0]] := by decide +kernel
+
+/-- FreeList.  Thread 0 puts n1 (list: n1, word 1).  Then thread 1 calls `get` and thread 0 calls `put( n2 )`: thread 1
+    loads head = n1 and takes a reference (word 2); thread 0 links n2 in front of n1 and returns; thread 1 reads
+    n1.next, its CAS on the head FAILS (head is n2), it drops its reference to n1 (`sub n1 2 1`: word 1, n1 stays on the
+    list), goes on with the value seen (n2), takes a reference, unlinks n2 and returns it. -/
+def freelistRaceSched : List (Tid × Act) :=
+  [(0, .invoke ⟨"put", [0, 1]⟩), (0, .step), (0, .step), (0, .step), (0, .step), (0, .step), (0, .ret),
+   (1, .invoke ⟨"get", [1]⟩), (0, .invoke ⟨"put", [0, 2]⟩),
+   (1, .step), (1, .step), (1, .step),
+   (0, .step), (0, .step), (0, .step), (0, .step), (0, .step), (0, .ret),
+   (1, .step), (1, .step), (1, .step), (1, .step), (1, .step), (1, .step), (1, .step), (1, .step), (1, .ret)]
+
+example : ((FreeList.model.run (FreeList.init (fun _ => 0)) freelistRaceSched).map (fun r => r.2.drop 7)) = some
+    [(1, .call ⟨"get", [1]⟩),
+     (0, .call ⟨"put", [0, 2]⟩),
+     (1, .ev ⟨"ld", "head", "n1", ""⟩),
+     (1, .ev ⟨"ld", "n1", "1", ""⟩),
+     (1, .ev ⟨"cas+", "n1", "1", "2"⟩),              -- the getter holds a reference to n1
+     (0, .ev ⟨"add", "n2", "0", "2147483648"⟩),
+     (0, .ev ⟨"ld", "head", "n1", ""⟩),
+     (0, .ev ⟨"st", "n2.next", "n1", ""⟩),
+     (0, .ev ⟨"st", "n2", "1", ""⟩),
+     (0, .ev ⟨"cas+", "head", "n1", "n2"⟩),          -- the put wins the race
+     (0, .ret [1]),
+     (1, .ev ⟨"ld", "n1.next", "null", ""⟩),
+     (1, .ev ⟨"cas-", "head", "n2", "n1"⟩),          -- the get's CAS fails
+     (1, .ev ⟨"sub", "n1", "2", "1"⟩),               -- reference dropped: n1 stays on the list
+     (1, .ev ⟨"ld", "n2", "1", ""⟩),
+     (1, .ev ⟨"cas+", "n2", "1", "2"⟩),
+     (1, .ev ⟨"ld", "n2.next", "n1", ""⟩),
+     (1, .ev ⟨"cas+", "head", "n2", "n1"⟩),
+     (1, .ev ⟨"sub", "n2", "2", "2"⟩),
+     (1, .ret [1, 2])] := by decide +kernel
+
+set_option synthInstance.maxSize 4000 in
+/-- At the end: both threads idle, the list is n1 alone with word 1, n2 has word 0 and is owned by thread 1 only. -/
+example : ((FreeList.model.run (FreeList.init (fun _ => 0)) freelistRaceSched).map
+    (fun r => (r.1.pc 0, r.1.pc 1, r.1.head, FreeList.walk r.1.next 8 r.1.head, (r.1.refs 1, r.1.shouldBeOn 1),
+      (r.1.refs 2, r.1.shouldBeOn 2), [r.1.owns 0 2, r.1.owns 1 2]))) =
+    some (.idle, .idle, some 1, [1], (1, false), (0, false), [false, true]) := by decide +kernel
+
+/-- `C21_freelist_quiescent_complete` applied to that run — no hypothesis is left. -/
+example : ∃ s os, FreeList.model.run (FreeList.init (fun _ => 0)) freelistRaceSched = some (s, os) ∧
+    (∀ t, s.pc t = .idle) ∧
+    ∃ l, FreeList.Chain s.next s.head l ∧ l.Nodup ∧ (∀ n, n ∈ l ↔ ∀ t, s.owns t n = false) ∧
+      (∀ n ∈ l, s.refs n = 1 ∧ s.shouldBeOn n = false) ∧ (∀ n, n ∉ l → s.refs n = 0 ∧ s.shouldBeOn n = false) ∧
+      ∀ t, ∃ s' os', FreeList.model.run s (FreeList.drainSched t l.length) = some (s', os') ∧
+        FreeList.retsOf os' = l.map (fun (a : Nat) => ([1, (a : Int)] : GRet)) ++ [[0]] ∧
+        (∀ a ∈ l, s'.owns t a = true) := by
+  have h : (FreeList.model.run (FreeList.init (fun _ => 0)) freelistRaceSched).isSome = true := by decide +kernel
+  obtain ⟨⟨s, os⟩, hr⟩ := Option.isSome_iff_exists.mp h
+  have h01 : (FreeList.model.run (FreeList.init (fun _ => 0)) freelistRaceSched).map
+      (fun r => decide (r.1.pc 0 = .idle ∧ r.1.pc 1 = .idle)) = some true := by decide +kernel
+  rw [hr] at h01
+  simp only [Option.map_some, Option.some.injEq, decide_eq_true_eq] at h01
+  have hsched : ∀ x ∈ freelistRaceSched, x.1 < 2 := by decide +kernel
+  have hq : ∀ t, s.pc t = .idle := by
+    intro t
+    match t with
+    | 0 => exact h01.1
+    | 1 => exact h01.2
+    | t + 2 =>
+      exact run_pc_other FreeList.model (fun s => s.pc) freelist_pc_other freelistRaceSched _ s os hr (t + 2)
+        (fun x hx e => absurd (e ▸ hsched x hx : t + 2 < 2) (Nat.not_lt.mpr (Nat.le_add_left 2 t)))
+  exact ⟨s, os, hr, hq, C21_freelist_quiescent_complete (fun _ => 0) s ⟨freelistRaceSched, os, hr⟩ hq⟩
+
+/-- The drain of the theorem, evaluated after that run (thread 2): n1, then "empty". -/
+example : ((FreeList.model.run (FreeList.init (fun _ => 0))
+    (freelistRaceSched ++ FreeList.drainSched 2 1)).map (fun r => FreeList.retsOf (r.2.drop 27))) =
+    some [[1, 1], [0]] := by decide +kernel
+
 end CdsVerif.Props.C21FreeLists
